@@ -125,6 +125,9 @@ type vMonitor struct {
 	slow      time.Duration // extra time spent inside ProcessSegments (makes overlap observable)
 	mu        sync.Mutex
 	overlap   string
+	park        chan struct{} // when set, the end-of-run deactivation waits for it to be closed
+	parked      int32
+	deactivated int32
 }
 
 func (m *vMonitor) note(what string) {
@@ -157,6 +160,30 @@ func (m *vMonitor) request(name string, f func()) {
 type vMon struct {
 	DataSource
 	mon *vMonitor
+}
+
+// RunDoneDeactivate is what the core loop calls (deferred) when a run ends.  The monitor can hold it back
+// until released, which lets a check place the end of a run at a chosen point of another call.
+func (w *vMon) RunDoneDeactivate() {
+	w.mon.mu.Lock()
+	park := w.mon.park
+	w.mon.mu.Unlock()
+	if park != nil {
+		atomic.StoreInt32(&w.mon.parked, 1)
+		select {
+		case <-park:
+		case <-time.After(5 * time.Second):
+		}
+	}
+	w.DataSource.RunDoneDeactivate()
+	atomic.StoreInt32(&w.mon.parked, 0)
+	atomic.AddInt32(&w.mon.deactivated, 1)
+}
+
+func (m *vMonitor) setPark(c chan struct{}) {
+	m.mu.Lock()
+	m.park = c
+	m.mu.Unlock()
 }
 
 func (w *vMon) ProcessSegments(b *dataBlock) error {
